@@ -125,6 +125,13 @@ let dispatch (cmd : string) (args : sx list) : sx =
       let specs = list_ (pair_ n_ cnode_) specs and inst = list_ n_ inst and cc = cc_ cc in
       if cmd = "conn_sets" then w_list (w_list (w_pair w_n w_n)) (conn_sets specs inst cc)
       else w_bool (edges_valid specs inst cc (list_ (pair_ n_ n_) (List.nth args 3)))
+  | "sup_resolve", [g; maps; inst; s] ->
+      let smap_ x = match lst x with
+        | [A "opt"; c; o; so; cd; tbl] -> MOpt (n_ c, n_ o, list_ n_ so, bool_ cd, list_ (pair_ (opt_ n_) n_) tbl)
+        | [A "exist"; tbl; d] -> MExist (list_ (pair_ n_ n_) tbl, opt_ n_ d)
+        | _ -> failwith "smap" in
+      w_opt (fun (s, i) -> L [w_assign s; w_list w_n i])
+        (resolve (dsg_ g) (list_ (pair_ n_ smap_) maps) (list_ n_ inst) (assign_ s))
   | _ -> Dispatch2.dispatch cmd args
 
 let () =
